@@ -1,6 +1,7 @@
 (* driver commands for the token codec (C20) and PostAction combination (C09) *)
 open Model
 open Util
+module ZZ = Util.ZZ
 
 let tok_s (t : tok) = Printf.sprintf "%s %s %s" (string_of_n t.t_id) (string_of_n t.t_ver) (string_of_n t.t_sub)
 let mk a b c = { t_id = n_of_string a; t_ver = n_of_string b; t_sub = n_of_string c }
@@ -18,7 +19,7 @@ let handle (ws : string list) : string =
       (match factory_take (factory_new (mk a b c)) (nat_of_int (int_of_string n)) with
        | None -> "PANIC"
        | Some l ->
-           let keys = List.map (fun t -> Z.to_string (z_of_n (pack t))) l in
+           let keys = List.map (fun t -> ZZ.to_string (z_of_n (pack t))) l in
            String.concat " " (string_of_int (List.length keys) :: keys))
   | ["bitor"; a; b] -> string_of_n (pa_code (pa_bitor (pa_of_code (n_of_string a)) (pa_of_code (n_of_string b))))
   | ["bitor_assign"; a; b] -> string_of_n (pa_code (pa_bitor_assign (pa_of_code (n_of_string a)) (pa_of_code (n_of_string b))))
